@@ -208,7 +208,7 @@ Scenario generate(const std::string& prop, uint64_t seed, const std::string& tie
     }
     if (!numeric && (prop == "C02" || prop == "C03" || prop == "C15" || prop == "C13") && r.chance(0.12)
         && (sc.executor == "seq" || sc.executor == "omp" || sc.executor == "seqtsm" || sc.executor == "omptsm")) {
-        sc.kernel = "weight_float";   // single-precision tree (positions, data) with the exact integer kernel
+        sc.kernel = r.chance(0.3) ? "weight_f35" : "weight_float";   // single-precision tree (positions, data) with the exact integer kernel; f35: 3 data / 5 result values (odd number of 4-byte rows)
         numeric = false;
     }
     if (!numeric && sc.kernel == "weight" && (prop == "C13" || prop == "C02" || prop == "C03" || prop == "C15") && r.chance(prop == "C13" ? 0.25 : 0.08)
@@ -314,7 +314,7 @@ Scenario generate(const std::string& prop, uint64_t seed, const std::string& tie
     sc.oneGroupPerParent = r.chance(0.35);
     sc.upper = r.chance(0.7) ? (sc.isPeriodic() ? 1 : 2) : long(r.below(uint64_t(sc.height + 1)));
     if (prop == "C12") sc.upper = long(r.below(uint64_t(sc.height + 1)));
-    if (prop == "C12" && sc.isPeriodic() && sc.height >= 2 && r.chance(0.4)
+    if (prop == "C12" && sc.isPeriodic() && sc.height >= 2 && r.chance(0.4) && !(sc.isTsm() && (sc.src.empty() || sc.tgt.empty()))
         && (sc.executor == "seq" || sc.executor == "omp" || sc.executor == "seqtsm" || sc.executor == "omptsm")) {
         sc.topLevels = int(r.below(5)) - 1;   // the periodic four-call sequence with the top-tree executor staged (applyStaging)
         sc.upper = 1; sc.upperDefault = false;
@@ -326,10 +326,12 @@ Scenario generate(const std::string& prop, uint64_t seed, const std::string& tie
     sc.ctorWithKernel = r.chance(0.4);
     if (prop != "C18" && r.chance(0.25)) sc.threadsExec = 1 + int(r.below(16));
 
+    // the top-tree executors state "level 1 holds at least one group" as an assertion: an empty side is outside their domain
+    const bool emptySide = sc.isTsm() && (sc.src.empty() || sc.tgt.empty());
     HistOp full; full.op = "execute"; full.flags = F_ALL;
     bool topSequence = false;
     const char* forceTop = getenv("TBFSIM_FORCE_TOP");
-    if (sc.isPeriodic() && sc.height >= 2 && prop != "C12" && prop != "C13" && sc.kernel != "unif" && (r.chance(0.6) || forceTop)) {
+    if (sc.isPeriodic() && sc.height >= 2 && prop != "C12" && prop != "C13" && sc.kernel != "unif" && !emptySide && (r.chance(0.6) || forceTop)) {
         // the documented periodic sequence: bottom-to-top, top tree, transfer, top-to-bottom
         sc.topLevels = int(r.below(5)) - 1;
         if (forceTop) sc.topLevels = atoi(forceTop);
